@@ -176,6 +176,19 @@ def close(x, y, scale=1.0):
     return abs(x - y) <= 1e-9 * max(1.0, scale)
 
 
+def behaviour_validate(module, trace_file, work, constants=None, invariants=(), timeout=300):
+    """Behaviour-style trace validation: TLC explores <module>!TraceSpec over the recorded history; accepted iff no
+    invariant is violated and POSTCONDITION TraceAccepted holds (every logged event consumed)."""
+    cfg = os.path.join(work, "%s_beh.cfg" % module)
+    write_cfg(cfg, spec="TraceSpec", constants=constants, invariants=invariants, postcondition="TraceAccepted")
+    res = _run_with_cfg(module, cfg, work, 1, timeout, None, False, "2g", env={"TRACE_FILE": trace_file,
+                        "LIB_OUT": os.path.join(work, "beh.lib.json")}, check=False)
+    if res["rc"] not in (0, 12, 13, 10) and "violated" not in res["out"] and "Postcondition" not in res["out"]:
+        raise Machinery("behaviour validation failed rc=%s\n%s" % (res["rc"], res["out"][-3000:]))
+    res["accepted"] = res["rc"] == 0
+    return res
+
+
 def read_ndjson(path):
     with open(path) as f:
         return [json.loads(l) for l in f if l.strip()]
